@@ -189,7 +189,7 @@ func ruleXRefCompleteness(c *core.Ctx) {
 		for _, r := range rows[0] {
 			o.Require(r.f2 == "0", "type-0 row must carry next-free 0 in field 2, got %s", r.f2)
 		}
-		o.Require(len(rows[0]) >= 1 && len(rows[1]) == 1 && len(rows[2]) == 1, "expected rows of types 0, 1 and 2, got %d/%d/%d", len(rows[0]), len(rows[1]), len(rows[2]))
+		o.Shape(len(rows[0]) >= 1 && len(rows[1]) == 1 && len(rows[2]) == 1, "expected rows of types 0, 1 and 2, got %d/%d/%d", len(rows[0]), len(rows[1]), len(rows[2]))
 		// selection conditions
 		for k, rs := range rows {
 			for _, r := range rs {
@@ -528,7 +528,7 @@ func ruleKeyFieldAgreement(c *core.Ctx) {
 					o.Fail("field %s is read from /%s but never written by the encoder", f, joinSet(dks))
 				}
 			}
-			o.Require(n >= p.minFields, "only %d field/key pairs recognised, expected at least %d", n, p.minFields)
+			o.Shape(n >= p.minFields, "only %d field/key pairs recognised, expected at least %d", n, p.minFields)
 		})
 	}
 }
